@@ -438,7 +438,14 @@ inline int pbt_main(int argc, char** argv, Harness h) {
         else {
             st.evaluations++;
             for (auto& l : o.labels) st.labels[l]++;
-            if (o.status == Outcome::INCONCLUSIVE) st.inconclusive[o.msg.substr(0, 80)]++;
+            if (o.status == Outcome::INCONCLUSIVE) {
+                st.inconclusive[o.msg.substr(0, 80)]++;
+                if (st.inconclusive[o.msg.substr(0, 80)] <= 2) {      // keep a couple for triage
+                    std::string t = to_text(h.prop, c, "inconclusive: " + o.msg);
+                    char nm[64]; snprintf(nm, sizeof nm, "%016llx", (unsigned long long)fnv64(t));
+                    std::ofstream f(rdir + "/inconclusive-" + nm + ".case"); f << t;
+                }
+            }
             if (o.nontrivial && o.status != Outcome::INCONCLUSIVE) {
                 st.nontrivial++;
                 std::string txt = to_text(h.prop, c);
